@@ -205,6 +205,52 @@ def sym_seconds(layout, s0, s1):
     return ids
 
 
+def _frac_rows(a, b):
+    """rows pinned a few ns around both range endpoints (where a rounding of the endpoints shows)"""
+    rows = []
+    for d in (-130, -90, -20, -1, 0, 7):
+        rows.append((a + d, a + d + 1))
+    for d in (-120, -60, -1, 0, 30, 129):
+        rows.append((b + d, b + d + 1))
+    rows.sort(key=lambda x: x[0])
+    return rows
+
+
+def sym_seconds_frac(k0, k1, mode):
+    """seconds_range given as dyadic fractions k/512 s (exactly representable), run start of unix-epoch size."""
+    S = fresh_int("S", 1_600_000_000 * 10**9, 1_800_000_000 * 10**9)
+    t0 = (S // 10**9) * 10**9
+    a, b = t0 + k0 * 1953125, t0 + k1 * 1953125  # 1e9 / 512 = 1953125
+    assume(a - 200 >= S)
+    rows = [(t, e, i) for i, (t, e) in enumerate(_frac_rows(a, b))]
+    E = b + 1000
+    L = ctx.Layout([S, E], [rows])
+    st, fe = _store(L, True, False, None)
+    res = st.get_array(RUN, "m1", seconds_range=(k0 / 512, k1 / 512), time_selection=mode, progress_bar=False,
+                       processor="single_thread")
+    ids = [int(x) for x in res["id"]]
+    for (t, e, i) in rows:
+        pred = sand(a <= t, e <= b) if mode == "fully_contained" else sand(e > a, t < b)
+        prove(pred if i in ids else snot(pred), f"seconds_frac:row {i} selection differs from filtering the full result")
+    return ids
+
+
+def nat_seconds_frac(params, model):
+    S = model["S"]
+    k0, k1, mode = params["k0"], params["k1"], params["mode"]
+    t0 = (S // 10**9) * 10**9
+    a, b = t0 + k0 * 1953125, t0 + k1 * 1953125
+    rows = [(t, e, i) for i, (t, e) in enumerate(_frac_rows(a, b))]
+    L = ctx.Layout([S, b + 1000], [rows])
+    with warnings.catch_warnings():
+        warnings.simplefilter("ignore")
+        st, fe = _store(L, False, False, None)
+        res = st.get_array(RUN, "m1", seconds_range=(k0 / 512, k1 / 512), time_selection=mode, progress_bar=False)
+    got = res["id"].tolist()
+    want = [i for (t, e, i) in rows if ((a <= t and e <= b) if mode == "fully_contained" else (e > a and t < b))]
+    return {"ok": got == want, "detail": f"got {got} want {want} t0={t0} range=({a},{b})", "label": "seconds_frac:selection"}
+
+
 def sym_twin():
     sym_select([1, 1], "touching")
     prove(False, "twin:reachable")
@@ -250,5 +296,10 @@ OBLIGATIONS = [
            "no chunk overlaps; storage untouched"),
     Ob("seconds", sym_seconds, lambda tier: [dict(layout=l, s0=s0, s1=s1) for l in ([1, 1], [2, 1])
                                              for s0, s1 in ((0, 1), (1, 3), (0, 20), (15, 30))], None, setup=_setup, witnesses=0),
+    Ob("seconds_frac", sym_seconds_frac, lambda tier: [dict(k0=k0, k1=k1, mode=m) for k0, k1 in ((1, 3), (7, 300), (100, 777))
+                                                       for m in ("fully_contained", "touching")], nat_seconds_frac,
+       setup=_setup, witnesses=3,
+       doc="fractional seconds (k/512 s) with an epoch-size run start; float rounding is not modelled symbolically, the "
+           "native witness replays carry this obligation"),
     Ob("twin", sym_twin, lambda tier: [dict()], None, setup=_setup, expect_cex=True),
 ]
